@@ -30,10 +30,12 @@ import (
 	"fmt"
 	"io"
 	"log/slog"
+	"net/http"
 	"os"
 	"path/filepath"
 	"sort"
 	"strings"
+	"sync"
 
 	"chainguard.dev/apko/pkg/apk/apk"
 )
@@ -49,6 +51,71 @@ type aOp struct {
 	// Same: the operation runs in the process of the previous one (no reset of the process-wide caches of
 	// pkg/apk/apk: globalApkCache, the memo of expanded packages keyed by URL, survives). Default: a fresh process.
 	Same bool `json:"same,omitempty"`
+	// Flaky (round 5): what the repository serves for a package URL CHANGES between the requests of one operation:
+	// the k-th GET of the URL gets Resp[min(k, len-1)].  Packages without an entry are served as the variant says.
+	Flaky []aFlaky `json:"flaky,omitempty"`
+}
+
+// aResp is one response of a scripted URL: the package served (Sub, default: what the variant serves) and what
+// happens to its bytes on the way (Fault; the Content-Length is honest about what is sent, so no read fails and
+// the range-retry transport has nothing to repeat).
+type aResp struct {
+	// "" intact | cut-sig / cut-ctl (the body ends at a member boundary: after the signature / the control member) |
+	// cut-mid-ctl / cut-mid-dat (in the middle of a member) | cut-tail (the last gzip trailer is short) |
+	// garble-crc (one bit of the last CRC-32) | garble-mid (one byte inside the data member) | garble-hdr (gzip magic of the control member)
+	Fault string  `json:"fault,omitempty"`
+	Sub   *aServe `json:"sub,omitempty"`
+	Kind  string  `json:"kind,omitempty"` // label of Sub (tags)
+}
+
+type aFlaky struct {
+	Pkg  int     `json:"pkg"`
+	Resp []aResp `json:"resp"`
+}
+
+var aFaults = []string{"cut-mid-dat", "cut-ctl", "cut-sig", "cut-mid-ctl", "cut-tail", "garble-crc", "garble-mid", "garble-hdr"}
+
+// aSubKinds: what a later (or the first) response may carry instead of the variant's package: the tamper kinds that
+// only change what is SERVED (the index keeps recording what the variant records), `v0` = the genuine package
+var aSubKinds = []string{"other-apk", "newer-apk", "v0", "ctl-desc", "dat-other", "dat-body-resummed", "missing", ""}
+
+// genFlaky draws the script of one package URL for one operation.
+func genFlaky(r *Rng, c *aCase, variant int, k int) aFlaky {
+	np := len(c.Pkgs)
+	fl := aFlaky{Pkg: r.Intn(np)}
+	sub := func(kind string) aResp {
+		switch kind {
+		case "":
+			return aResp{}
+		case "v0":
+			s := c.Variants[0][fl.Pkg]
+			return aResp{Sub: &s, Kind: kind}
+		}
+		v := append([]aServe(nil), c.Variants[variant]...)
+		applyTamper(r, c, v, fl.Pkg, kind)
+		s := v[fl.Pkg]
+		return aResp{Sub: &s, Kind: kind}
+	}
+	n := r.Range(2, 3)
+	for j := 0; j < n; j++ {
+		var rs aResp
+		switch {
+		case j == 0 && r.Chance(80):
+			// the first response is damaged on the way (round-robin over the faults so that every kind is covered evenly)
+			rs = sub(Pick(r, []string{"", "", "v0"}))
+			rs.Fault = aFaults[(k+r.Intn(2))%len(aFaults)]
+		case j == 0:
+			// the first response is another package, the genuine one comes later: only the first counts
+			rs = sub(Pick(r, []string{"other-apk", "newer-apk", "ctl-desc", "missing"}))
+		case r.Chance(25):
+			rs = sub(Pick(r, []string{"", "v0"}))
+			rs.Fault = Pick(r, aFaults)
+		default:
+			rs = sub(aSubKinds[(k+j+r.Intn(3))%len(aSubKinds)])
+		}
+		fl.Resp = append(fl.Resp, rs)
+	}
+	return fl
 }
 
 type aCase struct {
@@ -359,6 +426,15 @@ func (authSuite) Gen(r *Rng, i int, tier string) any {
 		if k > 0 && r.Chance(55) {
 			op.Same = true
 		}
+		// round 5: the answer to a package URL changes between the requests of this operation
+		if !op.Plant && r.Chance(35) {
+			op.Flaky = append(op.Flaky, genFlaky(r, c, op.Variant, i+k))
+			if len(c.Pkgs) > 1 && r.Chance(20) {
+				if f2 := genFlaky(r, c, op.Variant, i+k+3); f2.Pkg != op.Flaky[0].Pkg {
+					op.Flaky = append(op.Flaky, f2)
+				}
+			}
+		}
 		c.Ops = append(c.Ops, op)
 	}
 	// .PKGINFO texts for the datahash parser
@@ -375,6 +451,101 @@ func (authSuite) Gen(r *Rng, i int, tier string) any {
 		c.Infos = append(c.Infos, b.String())
 	}
 	return c
+}
+
+func (op aOp) flakyOf(i int) *aFlaky {
+	for k := range op.Flaky {
+		if op.Flaky[k].Pkg == i {
+			return &op.Flaky[k]
+		}
+	}
+	return nil
+}
+
+// serve: the package a response carries (the variant's own unless the response names a substitute)
+func (rs aResp) serve(own aServe) aServe {
+	if rs.Sub != nil {
+		return *rs.Sub
+	}
+	return own
+}
+
+// damaged applies a transport fault to the bytes of a package (signature?, control, data members).
+func (w *aWorld) damaged(s aServe, fault string) []byte {
+	var sig []byte
+	if s.Signed {
+		sig = w.Sig
+	}
+	ctl, dat := w.Ctl[s.Ctl.Pkg][s.Ctl.Alt].Bytes, w.Dat[s.Dat.Pkg][s.Dat.Alt].Bytes
+	cat := func(parts ...[]byte) []byte {
+		var out []byte
+		for _, p := range parts {
+			out = append(out, p...)
+		}
+		return out
+	}
+	all := cat(sig, ctl, dat)
+	switch fault {
+	case "cut-sig":
+		if s.Signed {
+			return cat(sig)
+		}
+		return cat(ctl)
+	case "cut-ctl":
+		return cat(sig, ctl)
+	case "cut-mid-ctl":
+		return cat(sig, ctl[:len(ctl)/2])
+	case "cut-mid-dat":
+		return cat(sig, ctl, dat[:len(dat)/2])
+	case "cut-tail":
+		return all[:len(all)-5]
+	case "garble-crc":
+		all[len(all)-8] ^= 0x01
+	case "garble-mid":
+		all[len(sig)+len(ctl)+len(dat)/2] ^= 0x20
+	case "garble-hdr":
+		all[len(sig)] ^= 0x40
+	}
+	return all
+}
+
+// flakyHook answers the GETs of the scripted package URLs of one operation: the k-th GET of a URL gets the k-th
+// response of its script (the last one from then on); everything else is served by the transport as usual.
+func (w *aWorld) flakyHook(pkgs []aPkg, v []aServe, op aOp) func(req *http.Request, body []byte) (*http.Response, bool) {
+	var mu sync.Mutex
+	count := map[int]int{}
+	return func(req *http.Request, _ []byte) (*http.Response, bool) {
+		if req.Method != http.MethodGet || !strings.HasSuffix(req.URL.Path, ".apk") {
+			return nil, false
+		}
+		i := -1
+		for k, p := range pkgs {
+			if strings.HasSuffix(req.URL.Path, "/"+p.Name+"-"+p.Version+".apk") {
+				i = k
+			}
+		}
+		fl := op.flakyOf(i)
+		if i < 0 || fl == nil {
+			return nil, false
+		}
+		mu.Lock()
+		k := count[i]
+		count[i]++
+		mu.Unlock()
+		if k >= len(fl.Resp) {
+			k = len(fl.Resp) - 1
+		}
+		rs := fl.Resp[k]
+		s := rs.serve(v[i])
+		code, b := 200, []byte(nil)
+		if s.Missing {
+			code, b = 404, []byte("not found")
+		} else {
+			b = w.damaged(s, rs.Fault)
+		}
+		return &http.Response{StatusCode: code, Status: fmt.Sprintf("%d %s", code, http.StatusText(code)), Proto: "HTTP/1.1", ProtoMajor: 1, ProtoMinor: 1,
+			Header: http.Header{}, Body: io.NopCloser(bytes.NewReader(b)), ContentLength: int64(len(b)), Request: req}, true
+	}
 }
 
 func pkgIndexOfPath(pkgs []aPkg, path string) int {
@@ -685,15 +856,33 @@ func (authSuite) Run(raw json.RawMessage) []Step {
 			if op.Plant && s.Missing {
 				s = c.Variants[0][i] // nothing planted for it: the request goes to HTTP, which serves variant 0
 			}
-			f := "-"
-			if !s.Missing {
+			// what a response means to the model: `-` when nothing that splits into members arrives (404, a body cut
+			// short or garbled), else the tokens of the members served
+			apkTok := func(s aServe, fault string) string {
+				if s.Missing || fault != "" {
+					return "-"
+				}
 				sg := "-"
 				if s.Signed {
 					sg = fmt.Sprint(w.tok(w.Sig))
 				}
-				f = fmt.Sprintf("%s:%d:%d", sg, w.tok(w.Ctl[s.Ctl.Pkg][s.Ctl.Alt].Bytes), w.tok(w.Dat[s.Dat.Pkg][s.Dat.Alt].Bytes))
+				return fmt.Sprintf("%s:%d:%d", sg, w.tok(w.Ctl[s.Ctl.Pkg][s.Ctl.Alt].Bytes), w.tok(w.Dat[s.Dat.Pkg][s.Dat.Alt].Bytes))
 			}
-			pk = append(pk, fmt.Sprintf("%s.%s.%s.%s", hx(p.Name+"-"+p.Version), expected[i], f, hx(rawSum[i])))
+			f := apkTok(s, "")
+			later := ""
+			if fl := op.flakyOf(i); fl != nil {
+				var ls []string
+				for j, rs := range fl.Resp {
+					t := apkTok(rs.serve(s), rs.Fault)
+					if j == 0 {
+						f = t
+					} else {
+						ls = append(ls, t)
+					}
+				}
+				later = "." + strings.Join(ls, "/")
+			}
+			pk = append(pk, fmt.Sprintf("%s.%s.%s.%s%s", hx(p.Name+"-"+p.Version), expected[i], f, hx(rawSum[i]), later))
 		}
 		kindCh, cacheCh := "b", "0"
 		if op.Kind == "lock" {
@@ -725,6 +914,9 @@ func (authSuite) Run(raw json.RawMessage) []Step {
 		var err error
 		var layout map[string][]byte
 		tr := &SynthTransport{Repo: httpRepo}
+		if len(op.Flaky) > 0 {
+			tr.Hook = w.flakyHook(c.Pkgs, v, op)
+		}
 		switch {
 		case setupErr != "":
 			err = fmt.Errorf("%s", setupErr)
@@ -778,6 +970,21 @@ func (authSuite) Run(raw json.RawMessage) []Step {
 		}
 		if op.Plant {
 			tags = append(tags, "planted-apk")
+		}
+		for _, fl := range op.Flaky {
+			var ds []string
+			for _, rs := range fl.Resp {
+				ds = append(ds, rs.Fault+"/"+rs.Kind)
+				tags = append(tags, "resp:"+rs.Fault+"/"+rs.Kind)
+			}
+			gets := 0
+			for _, rq := range tr.Log {
+				if rq.Method == "GET" && pkgIndexOfPath(c.Pkgs, rq.Path) == fl.Pkg && strings.HasSuffix(rq.Path, ".apk") {
+					gets++
+				}
+			}
+			desc += fmt.Sprintf(" flaky[%s: %s; %d GET]", c.Pkgs[fl.Pkg].Name, strings.Join(ds, " then "), gets)
+			tags = append(tags, fmt.Sprintf("flaky-gets:%d", gets))
 		}
 		steps = append(steps, Step{Line: "auth.verdict\t" + args, Go: goV, Desc: desc + " -> " + errTag(err), Tags: tags})
 		if c.Cache {
